@@ -150,9 +150,22 @@ class RemoteState(dict):
             cls.set_patches_iter(it + len(sub_patches))
 
     @staticmethod
+    def default_setstate(obj, state):
+        # what `pickle` does with the state of an object which has no __setstate__ (see `load_build` in pickle.py)
+        slotstate = None
+        if isinstance(state, tuple) and len(state) == 2:
+            state, slotstate = state
+        if state:
+            obj.__dict__.update(state)
+        if slotstate:
+            for key, value in slotstate.items():
+                setattr(obj, key, value)
+
+    @staticmethod
     def recreate_obj_and_patch_setstate(newobj, newargs, children_names):
         ret = newobj(*newargs)
-        orig_getstate = ret.__setstate__.__func__
+        # a class need not define __setstate__: the state is then installed the way unpickling does by default
+        orig_getstate = getattr(type(ret), '__setstate__', None)
         def patched_setstate(obj, state):
             if isinstance(state, dict):
                 patched_state = state.copy()
@@ -162,8 +175,11 @@ class RemoteState(dict):
             else:
                 patched_state = state
             del obj.__setstate__
-            assert obj.__setstate__.__func__ is orig_getstate
-            orig_getstate(obj, patched_state)
+            if orig_getstate is not None:
+                assert getattr(type(obj), '__setstate__', None) is orig_getstate
+                orig_getstate(obj, patched_state)
+            else:
+                RemoteState.default_setstate(obj, patched_state)
             RemoteState.child_restored(obj)
 
         ret.__setstate__ = patched_setstate.__get__(ret, type(ret)) # pylint: disable=assignment-from-no-return,no-value-for-parameter
